@@ -64,9 +64,11 @@ Proof.
   unfold interrupted in G. rewrite Hs in G.
   destruct (thread_interrupt_frame unit st t e) as (R & _). fold st' in R.
   destruct (tstate_eqb_spec (th_state (getth st t)) SLEEPING); [|contradiction].
-  rewrite G. thsimpl. repeat split; auto.
-  - rewrite R, in_app_iff. right; left; reflexivity.
-  - intros X. apply (wf_sleep _ _ W') in X. rewrite G in X. discriminate.
+  rewrite G. thsimpl.
+  split; [reflexivity|]. split; [reflexivity|]. split; [reflexivity|].
+  split; [rewrite R, in_app_iff; right; left; reflexivity|].
+  split; [|exact W'].
+  intros X. apply (wf_sleep _ _ W') in X. rewrite G in X. discriminate.
 Qed.
 
 Lemma pending_errno_not_overwritten_lemma (st : cstate) t e :
@@ -100,8 +102,8 @@ Definition f6_witness : list (list core_op) :=
 
 Lemma f6_witness_trace :
   map (fun e => (ev_tid e, ev_pc e, ev_ret e, ev_err e, ev_time e, ev_src e)) (run_trace 100 f6_witness) =
-  [(0, 0, 0, 0, 1000, 0); (0, 1, 0, 0, 1000, 0); (0, 2, 0, 0, 1000, 0);
-   (1, 0, 4, 0, 1000, 2); (1, 1, -1, 4, 1200, 2); (0, 3, 0, 0, 1500, 0)]%nat.
+  [(0%nat, 0%nat, 0, 0, 1000, 0%nat); (0%nat, 1%nat, 0, 0, 1000, 0%nat); (0%nat, 2%nat, 0, 0, 1000, 0%nat);
+   (1%nat, 0%nat, 4, 0, 1000, 2%nat); (1%nat, 1%nat, -1, 4, 1200, 2%nat); (0%nat, 3%nat, 0, 0, 1500, 0%nat)].
 Proof. vm_compute. reflexivity. Qed.
 
 Lemma interrupt_at_most_once_refuted_lemma : ~ interrupt_at_most_once.
@@ -111,8 +113,8 @@ Proof.
   assert (Hnz : NZ_progs f6_witness).
   { intros t pc k e. destruct t as [|[|[|t]]]; destruct pc as [|[|[|[|pc]]]]; simpl; try discriminate; try (destruct pc; discriminate).
     intros [= _ <-]. discriminate. }
-  remember (nth 3 (run_trace 100 f6_witness) (mkEv 0 0 0 0 0 0 false [] 0)) as e1 eqn:E1.
-  remember (nth 4 (run_trace 100 f6_witness) (mkEv 0 0 0 0 0 0 false [] 0)) as e2 eqn:E2.
+  remember (nth 3 (run_trace 100 f6_witness) (mkEv 0%nat 0%nat 0 0 0 0 false [] 0%nat)) as e1 eqn:E1.
+  remember (nth 4 (run_trace 100 f6_witness) (mkEv 0%nat 0%nat 0 0 0 0 false [] 0%nat)) as e2 eqn:E2.
   apply (H f6_witness 100%nat 3%nat 4%nat e1 e2 Hne Hnz).
   - subst e1. vm_compute. reflexivity.
   - subst e2. vm_compute. reflexivity.
@@ -138,8 +140,8 @@ Definition f8_witness : list (list core_op) :=
 
 Lemma f8_witness_trace :
   map (fun e => (ev_tid e, ev_pc e, ev_ret e, ev_time e, ev_issued e, ev_shut e)) (run_trace 100 f8_witness) =
-  [(0, 0, 0, 1000, 1000, false); (0, 1, 0, 1000, 1000, false); (0, 2, 0, 1000, 1000, false);
-   (1, 0, 0, 31000, 1000, false); (2, 0, 1001, 31000, 1000, true); (0, 3, 0, 51000, 1000, false)]%nat.
+  [(0%nat, 0%nat, 0, 1000, 1000, false); (0%nat, 1%nat, 0, 1000, 1000, false); (0%nat, 2%nat, 0, 1000, 1000, false);
+   (1%nat, 0%nat, 0, 31000, 1000, false); (2%nat, 0%nat, 1001, 31000, 1000, true); (0%nat, 3%nat, 0, 51000, 1000, false)].
 Proof. vm_compute. reflexivity. Qed.
 
 Lemma shutdown_bound_refuted_lemma : ~ shutdown_bound.
@@ -147,8 +149,8 @@ Proof.
   intros H.
   assert (Hne : f8_witness <> []) by discriminate.
   assert (Hnz : NZ_progs f8_witness).
-  { intros t pc k e. destruct t as [|[|[|t]]]; destruct pc as [|[|[|[|pc]]]]; simpl; try discriminate; try (destruct pc; discriminate). }
-  remember (nth 4 (run_trace 100 f8_witness) (mkEv 0 0 0 0 0 0 false [] 0)) as e1 eqn:E1.
+  { intros t pc k e. destruct t as [|[|[|[|t]]]]; destruct pc as [|[|[|[|pc]]]]; simpl; try discriminate; try (destruct pc; discriminate). }
+  remember (nth 4 (run_trace 100 f8_witness) (mkEv 0%nat 0%nat 0 0 0 0 false [] 0%nat)) as e1 eqn:E1.
   assert (Hin : In e1 (run_trace 100 f8_witness)) by (subst e1; vm_compute; tauto).
   pose proof (H f8_witness 100%nat e1 Hne Hnz Hin) as X.
   assert (Hs : ev_shut e1 = true) by (subst e1; vm_compute; reflexivity).
